@@ -1,31 +1,8 @@
 //! vcheck <ID> [--tier quick|thorough] [--replay FILE] [--seed N] [--cases N] [--jobs N]
 
-mod arith;
-mod common;
-mod c01;
-mod c02;
-mod c03;
-mod c04;
-mod c05;
-mod c06;
-mod c07;
-mod c08;
-mod c09;
-mod c11;
-mod c12;
-mod c13;
-mod c14;
-mod c15;
-mod c18;
-mod c19;
-mod c20;
-mod guard;
-mod selftest;
-mod c10;
-mod c16;
-mod c17;
 
 use engine::{run_prop, Opts};
+use vcheck::*;
 
 fn main() {
     let args: Vec<String> = std::env::args().skip(1).collect();
